@@ -16,7 +16,7 @@ RULE = ("random datasets n<=25, 1..4 groups (skewed: single-row groups frequent)
         "weighted call is compared with (a) the same rows repeated weight-many times unweighted, (b) repeated rows with "
         "all-ones weights vs no weights, (c) weights scaled by 0.5, 3, 1e-3, 1e6, 1e-10, 1e-15, 1e12 - for the 4 rates (all label encodings "
         "of C14), selection_rate, mean_prediction, a dict MetricFrame with per-metric sample_params (by_group, overall, "
-        "difference, ratio) and the 6 named fairness metrics; result shape (scalar vs array) compared too. "
+        "difference, ratio; plus a frame holding the same functions under several keys with different / no weights per key) and the 6 named fairness metrics; result shape (scalar vs array) compared too. "
         "distinct = distinct (n, sorted group sizes, weight multiset, encoding); non-trivial = some weight > 1.")
 ASSUMPTIONS = ["weights are positive integers (multiplicity) or positive real multiples of them",
                "comparison tolerance 1e-11 relative (floating-point summation order differs between the two sides)"]
@@ -124,6 +124,23 @@ def run_case(cls, key, seed, ctx):
                         a, b = getattr(X, agg)(method=method)[m], getattr(Y, agg)(method=method)[m]
                         ctx.check(_same(a, b), label + ":MetricFrame.%s:%s" % (agg, m), method=method, y_true=yl, y_pred=pl_,
                                   groups=gg, weights=w.tolist(), left=repr(a), right=repr(b))
+        # per-metric weights: the same function under several keys, each with its own (or no) weights, must give per key what a
+        # frame holding that single weighting gives (which the comparisons above tie to row multiplicity)
+        w2 = rng.permutation(w) if rng.random() < 0.7 else rng.integers(1, 6, size=n)
+        A2 = frame(yl, pl_, gg, wv(w2))
+        U = frame(yl, pl_, gg, None)
+        mixed = {"tpr": M.true_positive_rate, "sel": M.selection_rate, "sel_other": M.selection_rate, "tpr_unit": M.true_positive_rate,
+                 "mp_other": M.mean_prediction, "sel_unit": M.selection_rate}
+        order = [str(k) for k in rng.permutation(list(mixed))]
+        E = M.MetricFrame(metrics={k: mixed[k] for k in order}, y_true=yl, y_pred=pl_, sensitive_features=gg,
+                          sample_params={k: {"sample_weight": (wv(w2) if k.endswith("_other") else wv(w))} for k in order if not k.endswith("_unit")})
+        for key_, (ref, col) in {"tpr": (A, "tpr"), "sel": (A, "sel"), "sel_other": (A2, "sel"), "mp_other": (A2, "mp"), "tpr_unit": (U, "tpr"),
+                                 "sel_unit": (U, "sel")}.items():
+            ctx.ev("frame_cells_compared", len(E.by_group.index) + 1)
+            bad = [gi for gi in E.by_group.index if not _same(E.by_group.loc[gi, key_], ref.by_group.loc[gi, col])]
+            ctx.check(not bad and _same(E.overall[key_], ref.overall[col]), "per_metric_weights_mixed_up_between_dict_entries:" + key_,
+                      groups_differing=[repr(b) for b in bad], overall=repr(E.overall[key_]), expected_overall=repr(ref.overall[col]),
+                      y_true=yl, y_pred=pl_, groups=gg, weights=w.tolist(), other_weights=np.asarray(w2).tolist(), key_order=order)
         return
     if cls == "fairness":
         for fname in ("demographic_parity_difference", "demographic_parity_ratio", "equal_opportunity_difference",
